@@ -1021,6 +1021,9 @@ fn infer_member_by_index_generic(
         .get_type_decl(&type_decl_id)
         .ok_or(InferFailReason::None)?;
     if type_decl.is_alias() {
+        // a self-referential generic alias (`---@alias Q<T> any extends any and Q<T> or T`)
+        // would be expanded forever
+        infer_guard.check(&type_decl_id)?;
         if let Some(origin_type) = type_decl.get_alias_origin(db, Some(&substitutor)) {
             return infer_member_by_operator_key_type(
                 db,
